@@ -263,6 +263,195 @@ def parsed_wildcard_reuse():
     return bad
 
 
+# ---- cursor re-use: the description of a statement is a function of the statement alone, whatever the SAME cursor
+# executed (or was refused) before. Oracles: the same statement on a fresh connection, and for plain wildcards the
+# introspected declaration order of the statement's own table.
+REUSE_SRC = '''option "operating_currency" "USD"
+2020-01-01 open Assets:Cash
+2020-01-01 open Assets:Stock
+2020-01-01 open Income:Job
+2020-01-01 open Expenses:Food
+2020-01-01 commodity USD
+2020-01-05 * "Employer" "Pay" #tag ^link
+  Assets:Cash   1000.00 USD
+  Income:Job
+2020-02-01 * "Shop" "Food"
+  Expenses:Food  12.50 USD
+  Assets:Cash
+2020-03-01 * "Buy"
+  Assets:Stock  2 ABC {10.00 USD}
+  Assets:Cash
+2020-03-02 price ABC 11.00 USD
+2020-03-03 note Assets:Cash "a note"
+2020-03-04 event "location" "somewhere"
+2020-12-31 balance Assets:Cash 967.50 USD
+'''
+REUSE_USER = [('k', int), ('v', str)]
+ABSENT = ['nosuch', 'zz_q', 'k9']          # names that are a column of no table
+
+
+def _reuse_conn(path):
+    conn = impl.beanquery.connect('beancount:' + path)
+    conn.tables['t'] = impl.make_table('t', REUSE_USER, [(1, 'x'), (2, 'y')])
+    return conn
+
+
+def reuse_registry():
+    reg = [(name, [c for c, _ in cols], wild) for name, cols, wild in gen_registry.collect()['tables'] if name]
+    return reg + [('t', [c for c, _ in REUSE_USER], [c for c, _ in REUSE_USER])]
+
+
+def gen_reuse_step(rng, reg):
+    """One statement: {'sql', 'role', 'wild'}; role 'left' = refused (or PRINT) after its FROM clause was compiled,
+    'star' = a wildcard statement, 'plain' = anything else. 'wild' = the names the property text prescribes, when the
+    statement is a plain wildcard over a named table (else None: only the fresh connection judges)."""
+    name, cols, wild = rng.choice(reg)
+    col = rng.choice(cols)
+    bad = rng.choice(ABSENT)
+    post = next(w for n, _, w in reg if n == 'postings')
+    r = rng.random()
+    if r < 0.42:
+        frm = rng.choice([f'#{name}', f'#{name}', f'(SELECT {col} FROM #{name})', f'(SELECT {col} AS {bad} FROM #{name} WHERE {col} = {col})',
+                          f'(SELECT * FROM #{name})', 'year = 2020', 'OPEN ON 2020-02-01', 'CLOSE ON 2020-03-15 CLEAR'])
+        inner = col if frm.startswith('#') or frm.startswith('(SELECT *') else ('date' if not frm.startswith('(') else
+                                                                                 (bad if ' AS ' in frm else col))
+        other = rng.choice([a for a in ABSENT if a != inner])
+        sql = rng.choice([
+            f'SELECT {other} FROM {frm}',
+            f'SELECT {inner}, {other} FROM {frm}',
+            f'SELECT {inner} FROM {frm} WHERE {other} = 1',
+            f'SELECT {inner}, nosuchfn({inner}) FROM {frm}',
+            f'SELECT {inner} FROM {frm} ORDER BY 7',
+            f'SELECT * FROM {frm} ORDER BY {other}',
+            f'SELECT {inner} FROM {frm} GROUP BY {other}',
+            'PRINT', 'PRINT FROM year = 2020',
+        ])
+        return {'sql': sql, 'role': 'left', 'wild': None}
+    if r < 0.85:
+        k = rng.randrange(12)
+        if k < 4:
+            tail = rng.choice(['', '', ' WHERE number > 0', ' ORDER BY date DESC', ' LIMIT 1', ' FROM year = 2020', ' FROM OPEN ON 2020-02-01'])
+            return {'sql': 'SELECT *' + tail, 'role': 'star', 'wild': post}
+        if k < 6:
+            return {'sql': f'SELECT * FROM #{name}' + rng.choice(['', ' LIMIT 2', ' WHERE 1 = 1']), 'role': 'star', 'wild': wild}
+        if k == 6:
+            return {'sql': 'SELECT * FROM (SELECT *)', 'role': 'star', 'wild': post}
+        if k == 7:
+            return {'sql': 'SELECT DISTINCT * FROM (SELECT account, number WHERE number > 0)', 'role': 'star', 'wild': ['account', 'number']}
+        if k < 10:
+            return {'sql': f'SELECT * FROM #{name}', 'role': 'star', 'wild': wild}
+        if k == 10:
+            return {'sql': f'SELECT * FROM (SELECT * FROM #{name})', 'role': 'star', 'wild': None if len(set(wild)) != len(wild) else wild}
+        return {'sql': f'SELECT * FROM (SELECT {col} AS c0, {col} FROM #{name})', 'role': 'star', 'wild': ['c0', col]}
+    sql = rng.choice([f'SELECT {col} FROM #{name}', 'SELECT date, account, number', 'SELECT account, sum(number) GROUP BY account',
+                      'BALANCES', 'JOURNAL', f'SELECT count(*) FROM #{name}', 'SELECT 1 AS one FROM #'])
+    return {'sql': sql, 'role': 'plain', 'wild': None}
+
+
+def gen_reuse_case(rng, reg):
+    steps = [gen_reuse_step(rng, reg) for _ in range(rng.randint(2, 6))]
+    if rng.random() < 0.7 and not any(s['role'] == 'star' for s in steps[1:]):
+        steps.append(next(s for s in iter(lambda: gen_reuse_step(rng, reg), None) if s['role'] == 'star'))
+    return steps
+
+
+def _reuse_outcome(cur, sql):
+    try:
+        cur.execute(sql)
+        rows = cur.fetchall()
+        return {'names': [d.name for d in cur.description], 'widths': sorted({len(r) for r in rows}), 'nrows': len(rows)}
+    except Exception as e:  # noqa: BLE001
+        return {'error': impl.exc_class(e) + ': ' + str(e)[:160]}
+
+
+def run_reuse_fresh(arg):
+    path, sql = arg
+    return _reuse_outcome(_reuse_conn(path).cursor(), sql)
+
+
+def run_reuse_impl(arg):
+    """All statements of the sequence on ONE cursor object."""
+    path, sqls = arg
+    cur = _reuse_conn(path).cursor()
+    return [_reuse_outcome(cur, sql) for sql in sqls]
+
+
+def reuse_first_bad(steps, got, fresh):
+    """index and reason of the first statement whose shape on the re-used cursor is not what it should be"""
+    for i, (s, g) in enumerate(zip(steps, got)):
+        w = fresh[s['sql']]
+        if 'error' in g and 'error' in w:
+            continue                      # refused either way: no description to judge (which error is C09's business)
+        if g != w:
+            return i, f'{g} on the re-used cursor but {w} on a fresh connection'
+        if s.get('wild') is not None and g.get('names') != s['wild']:
+            return i, f'{g} but the targets are {s["wild"]}'
+        if 'names' in g and g['widths'] not in ([], [len(g['names'])]):
+            return i, f'row widths {g["widths"]} differ from the {len(g["names"])} described columns'
+    return None
+
+
+def cursor_reuse_stream(tier, rng):
+    reg = reuse_registry()
+    cases = [gen_reuse_case(rng, reg) for _ in range(400 if tier == 'quick' else 6000)]
+    with tempfile.NamedTemporaryFile('w', suffix='.beancount', delete=False) as f:
+        f.write(REUSE_SRC)
+        path = f.name
+    violations = []
+    hist = {'roles': {}, 'length': {}, 'star_after_left': 0, 'left_refused': 0, 'left_total': 0, 'star_described': 0}
+    try:
+        sqls = sorted({s['sql'] for c in cases for s in c})
+        fresh = dict(zip(sqls, core.pmap(run_reuse_fresh, [(path, q) for q in sqls])))
+        gots = core.pmap(run_reuse_impl, [(path, [s['sql'] for s in c]) for c in cases])
+        seen = set()
+        for c, got in zip(cases, gots):
+            hist['length'][len(c)] = hist['length'].get(len(c), 0) + 1
+            left = False
+            for s in c:
+                hist['roles'][s['role']] = hist['roles'].get(s['role'], 0) + 1
+                if s['role'] == 'left':
+                    hist['left_total'] += 1
+                    refused = fresh[s['sql']].get('error', '').startswith(('CompilationError', 'other:'))
+                    hist['left_refused'] += refused
+                    left = left or refused
+                if s['role'] == 'star':
+                    hist['star_after_left'] += left
+                    hist['star_described'] += 'names' in fresh[s['sql']]
+            bad = reuse_first_bad(c, got, fresh)
+            if bad is None or len(seen) >= 3:
+                continue
+            k = bad[0]
+            steps = c[:k + 1]
+
+            def fails_many(cands, last=steps[-1]):
+                out = []
+                for cd in cands:
+                    seq = cd + [last]
+                    b = reuse_first_bad(seq, run_reuse_impl((path, [s['sql'] for s in seq])), fresh)
+                    out.append(b is not None and b[0] == len(cd))
+                return out
+            pre = steps[:-1]
+            if len(pre) >= 2:
+                from . import shrink
+                pre = shrink.ddmin_batch(pre, fails_many)
+            steps = pre + [steps[-1]]
+            got2 = run_reuse_impl((path, [s['sql'] for s in steps]))
+            why = reuse_first_bad(steps, got2, fresh) or bad
+            sig = 'cursor-reuse:' + ' ; '.join(s['sql'] for s in steps)
+            if sig in seen:
+                continue
+            seen.add(sig)
+            violations.append(core.Violation(
+                'cursor-reuse', f'one cursor, execute in turn {[s["sql"] for s in steps]}: the last statement gives {why[1]}',
+                {'kind': 'cursor-reuse', 'ledger': REUSE_SRC, 'steps': steps, 'got': got2,
+                 'fresh': [fresh[s['sql']] for s in steps]}, signature=sig))
+    finally:
+        os.unlink(path)
+    return violations, {'cursor_reuse_sequences': len(cases), 'cursor_reuse_distinct_statements': len(sqls),
+                        'cursor_reuse_histograms': hist,
+                        'cursor_reuse_samples': [' ; '.join(s['sql'] for s in c) for c in cases[:3]]}
+
+
 def run(tier, rng):
     n = 1500 if tier == 'quick' else 20000
     cases = [gen_case(rng) for _ in range(n)]
@@ -324,8 +513,10 @@ def run(tier, rng):
     for name, got, want in wbad[:2]:
         violations.append(core.Violation('wildcard', f'SELECT * FROM #{name}: {got} but the table declares {want}',
                                          {'table': name, 'got': got, 'want': want}, signature='wildcard:' + name))
+    rviol, rcov = cursor_reuse_stream(tier, rng)
+    violations.extend(rviol)
     cov = {
-        'evaluations': len(cases) + nb + ns, 'structured_and_placeholder_targets': ns, 'distinct_nontrivial': nontrivial,
+        'evaluations': len(cases) + nb + ns + rcov['cursor_reuse_sequences'], 'structured_and_placeholder_targets': ns, 'distinct_nontrivial': nontrivial,
         'rule': 'random SELECT lists of 1-4 targets (aliased / bare column / expression of depth<=3) written with random white space, '
                 'comments, redundant parentheses, unary +, upper-case identifiers; hidden ORDER BY / GROUP BY / HAVING helpers; '
                 'optionally wrapped as SELECT * FROM (...); every Beancount table with * and with all columns; '
@@ -333,10 +524,24 @@ def run(tier, rng):
         'samples': [statement(c) for c in cases[:4]],
         'traces_validated_against_impl': len(cases), 'histograms': hist, 'beancount_tables_checked': nb,
     }
+    cov.update(rcov)
+    cov['rule'] += ('; cursor re-use: sequences of 2-7 statements on ONE cursor of a Beancount connection (statements refused after '
+                    'their FROM clause was compiled - unknown column / function / ORDER BY index over every table, subqueries, FROM '
+                    'expressions - and PRINT, wildcard statements with and without FROM, plain statements): description names and '
+                    'row widths of every statement equal those on a fresh connection and, for wildcards over a named table, the '
+                    'introspected declaration order')
     return {'coverage': cov, 'violations': violations}
 
 
 def replay(rec):
+    if rec.get('kind') == 'cursor-reuse':
+        with tempfile.NamedTemporaryFile('w', suffix='.beancount', delete=False) as f:
+            f.write(rec['ledger'])
+        try:
+            fresh = {s['sql']: run_reuse_fresh((f.name, s['sql'])) for s in rec['steps']}
+            return reuse_first_bad(rec['steps'], run_reuse_impl((f.name, [s['sql'] for s in rec['steps']])), fresh) is None
+        finally:
+            os.unlink(f.name)
     if 'sql' not in rec:
         return not beancount_wildcards()[1]
     c = rec['case']
